@@ -84,6 +84,7 @@ var c19Shapes = []c19Shape{
 	{"hs-token-plaintext/client", "client", security.SecurityRequired, []security.AuthMethod{mTOK}, security.SecurityNever, false, false, 0},
 	{"hs-resumed/client", "client", security.SecurityRequired, []security.AuthMethod{mCTB}, security.SecurityRequired, true, false, 0},
 	{"hs-resumed/server", "server", security.SecurityRequired, []security.AuthMethod{mCTB}, security.SecurityRequired, true, false, 0},
+	{"hs-denied/server", "server-denied", security.SecurityNever, []security.AuthMethod{mCTB}, security.SecurityRequired, false, true, 0},
 	{"hs-ssl/client", "client", security.SecurityRequired, []security.AuthMethod{security.AuthSSL}, security.SecurityNever, false, false, 0},
 	{"hs-ssl/server", "server", security.SecurityRequired, []security.AuthMethod{security.AuthSSL}, security.SecurityNever, false, false, 0},
 	{"hs-ssl-enc/client", "client", security.SecurityRequired, []security.AuthMethod{security.AuthSSL}, security.SecurityRequired, false, false, 0},
@@ -213,6 +214,11 @@ func c19Handshake(sh c19Shape, stall int, ctx context.Context, onStall func()) *
 		return cc, sc
 	}
 	cc, sc := mk()
+	if sh.role == "server-denied" {
+		// the negotiation cannot succeed (the server REQUIRES encryption, the client offers no
+		// cipher): the server's last act is to write its DENIED reply
+		cc.CryptoMethods, cc.Encryption = nil, security.SecurityNever
+	}
 	if sh.resumed {
 		r0 := hsRun(hsOpts{ClientCfg: cc, ServerCfg: sc, App: true})
 		if r0.C.Err != nil || r0.S.Err != nil {
@@ -242,7 +248,7 @@ func c19Handshake(sh c19Shape, stall int, ctx context.Context, onStall func()) *
 		security.GetSessionCache().Invalidate(r.S.Neg.SessionId)
 	}
 	E := &r.C
-	if sh.role == "server" {
+	if sh.role == "server" || sh.role == "server-denied" {
 		E = &r.S
 	}
 	out.err = E.Err
@@ -286,7 +292,7 @@ func c19Certs() (ca, cert, key string) {
 }
 
 func c19Exec(sh c19Shape, stall int, ctx context.Context, onStall func()) *c19Out {
-	if sh.role == "client" || sh.role == "server" {
+	if sh.role == "client" || sh.role == "server" || sh.role == "server-denied" {
 		return c19Handshake(sh, stall, ctx, onStall)
 	}
 	return c19Plain(sh, stall, ctx, onStall)
@@ -295,7 +301,7 @@ func c19Exec(sh c19Shape, stall int, ctx context.Context, onStall func()) *c19Ou
 func C19Plan() *vlib.Plan {
 	p := &vlib.Plan{
 		Property: "C19", Level: "fault_enumeration",
-		Rule:   "E-FAULT over I/O steps: for each shape (plain send/receive, the same on an encrypted stream, typed exchange, plain exchange on a stream whose connection was replaced through SetConnection; client and server side of handshakes {no authentication + encryption, CLAIMTOBE, TOKEN, TOKEN without encryption, resumed session, SSL (TLS tunnelled through CEDAR messages, throw-away CA)}) a dry run counts the endpoint's connection operations N; for every k < N the k-th read/write blocks forever and, once the stall is entered, (a) the context is cancelled, (b) a harness-controlled deadline context expires (thorough: also a real 50 ms timeout); plus already-cancelled before the call, cancelled after completion, a never-cancellable context, and a trickling link (the endpoint's reads return at most 1 / 3 / 7 bytes) under Background, TODO and cancellable-but-never-cancelled contexts. Oracle: the call returns (10 s watchdog, the only wall-clock judgement), with an error (errors.Is(err, ctx.Err()) for plain stream operations), the connection was closed; never-cancelled runs equal the baseline. Non-trivial = the stall point was reached.",
+		Rule:   "E-FAULT over I/O steps: for each shape (plain send/receive, the same on an encrypted stream, typed exchange, plain exchange on a stream whose connection was replaced through SetConnection; client and server side of handshakes {no authentication + encryption, CLAIMTOBE, TOKEN, TOKEN without encryption, resumed session, a negotiation the server must DENY (stalls include the write of that reply), SSL (TLS tunnelled through CEDAR messages, throw-away CA)}) a dry run counts the endpoint's connection operations N; for every k < N the k-th read/write blocks forever and, once the stall is entered, (a) the context is cancelled, (b) a harness-controlled deadline context expires (thorough: also a real 50 ms timeout); plus already-cancelled before the call, cancelled after completion, a never-cancellable context, and a trickling link (the endpoint's reads return at most 1 / 3 / 7 bytes) under Background, TODO and cancellable-but-never-cancelled contexts. Oracle: the call returns (10 s watchdog, the only wall-clock judgement), with an error (errors.Is(err, ctx.Err()) for plain stream operations), the connection was closed; never-cancelled runs equal the baseline. Non-trivial = the stall point was reached.",
 		Assume: []string{"free-running (context.AfterFunc callbacks run on standard-library goroutines); FS/KERBEROS/SCITOKENS shapes excluded (need a mount namespace / a KDC / an issuer)"},
 	}
 	p.Gen = func(tier string, yield func(vlib.Case)) {
@@ -313,7 +319,7 @@ func C19Plan() *vlib.Plan {
 			}
 			N := base.ops
 			counts[sh.name] = N
-			plain := sh.role != "client" && sh.role != "server"
+			plain := sh.role != "client" && sh.role != "server" && sh.role != "server-denied"
 			judge := func(res *vlib.Result, label string, out *c19Out, ctxErr error, mustFail bool) {
 				res.Evals++
 				if !out.returned {
